@@ -87,7 +87,6 @@ def cases(draw, backend):
         os_ = g.objseq([("e", TEvt())], 0)
         v = "j"
         scope = [(v, TObj(os_[1]))]
-        g.f.seq2d = False
         head = lambda body: f"Select(SelectMany({src}, lambda e: {os_[0]}), lambda {v}: {body})"
     cols = chained_cols if chained_cols is not None else [g.column(scope, fuel) for _ in range(ncols)]
     form = draw(st.sampled_from(["bare", "tuple", "list", "dict", "explicit", "explicit", "explicit1"]))
